@@ -585,7 +585,7 @@ class C06(Spec):
 
     def make_case(self, seed, tier):
         rng = random.Random(f'C06/{seed}')
-        cfg = sample_cfg(rng, tier)
+        cfg = sample_cfg(rng, tier, m_max=7)    # the mask bound in _convert depends on binom(m, t): all (m, t) matter
         prog = convfam.gen(rng, cfg, tier)
         return {'family': 'conv', 'cfg': cfg.to_json(), 'prog': prog, 'seed': seed}
 
